@@ -236,6 +236,9 @@ def decrypt_recipient(
             # symmetric key.
             assert isinstance(alg, JWEDirectEncryption)
             cek = alg.compute_cek(enc.cek_size, recipient)
+    elif recipient.encrypted_key is None:
+        # every other mode carries the CEK in the JWE Encrypted Key
+        raise DecodeError('Missing "encrypted_key" value')
     elif isinstance(alg, JWEKeyAgreement):
         agreed_upon_key: bytes
         if alg.tag_aware:
